@@ -13,7 +13,11 @@ def dispatchHuge : List String → Option (Obs × Option Obs)
     let (a, b, n) := (int! a, int! b, int! n)
     let (qi, qv) := (ints qi, ints qv)
     let txt : Bytes := itoa a ++ '-' :: itoa b ++ (if n = 0 then [] else 'x' :: itoa n)
-    let sq : Bytes := "/d/f.".toList ++ txt ++ "#.exr".toList
+    -- the pad token (hence the width of the frame paths) varies with the operands: 4, 12 or 15
+    let sel := (a.natAbs + b.natAbs) % 3
+    let padTok : Bytes := if sel = 0 then "#".toList else if sel = 1 then "###".toList else "%015d".toList
+    let padW : Int := if sel = 0 then 4 else if sel = 1 then 12 else 15
+    let sq : Bytes := "/d/f.".toList ++ txt ++ padTok ++ ".exr".toList
     match FrameSet.parse txt, Seq.parse .hash4 sq with
     | .ok fs, .ok s =>
       let m : Obs :=
@@ -33,7 +37,7 @@ def dispatchHuge : List String → Option (Obs × Option Obs)
           ("has", ",".intercalate (qv.map fun v => showBool (Spec.cHas a b mm v))),
           ("str", hex sq), ("slen", toString (Spec.cLen a b mm)),
           ("ix", hexList (qi.map fun i => match Spec.cValue a b mm i with
-              | some v => Spec.framePath "/d/".toList "f.".toList ".exr".toList 4 v
+              | some v => Spec.framePath "/d/".toList "f.".toList ".exr".toList padW v
               | none => [])),
           ("cheap", "1") ]
       some (m, some sp)
